@@ -148,16 +148,7 @@ pub fn run(tier: Tier, reg: &[VT]) -> Report {
 
 	// every index byte x payloads: lazy exploration over the full alphabet
 	let depth = if tier.thorough() { 3 } else { 2 };
-	let all: Vec<u8> = (0..=255u8).collect();
-	let acc = par(&types, |vt, acc| {
-		heartbeat(&format!("{} bytes", vt.name));
-		let shape = (vt.shape)();
-		if c03::zw_container(&shape) {
-			return;
-		}
-		let mut ex = c03::Explore::new("C05", c03::node, vt, &all, depth, u64::MAX);
-		ex.go(&mut vec![], acc, "C05.bytes");
-	});
+	let acc = c03::explore_all("C05", "C05.bytes", c03::node, &types, &c03::ALL, depth, u64::MAX, true);
 	rep.part("index bytes", &format!("every byte string of length <= {} (every index byte 0..=255 x payloads) decoded by every generated type vs the reference", depth), acc);
 
 	// skipped variants: no bytes, and the call terminates (sub-process; death = non-termination)
